@@ -459,8 +459,17 @@ def check(prop, tier, seed, replay=None):
     t0 = time.time()
     cfg = P.PROPS[prop]
     known = load_known()
-    logdir = os.path.join(BUILD, "logs", prop)
-    shutil.rmtree(logdir, ignore_errors=True)
+    # one log directory per invocation (two runs of the same check must not delete each other's logs);
+    # directories of finished invocations are removed
+    logroot = os.path.join(BUILD, "logs")
+    os.makedirs(logroot, exist_ok=True)
+    for dname in os.listdir(logroot):
+        if dname == prop or dname.startswith(prop + "-"):
+            pid = dname.rsplit("-", 1)[-1]
+            if pid.isdigit() and os.path.exists("/proc/" + pid):
+                continue
+            shutil.rmtree(os.path.join(logroot, dname), ignore_errors=True)
+    logdir = os.path.join(logroot, "%s-%d" % (prop, os.getpid()))
     os.makedirs(logdir, exist_ok=True)
     os.makedirs(os.path.join(BUILD, "scratch"), exist_ok=True)
     repdir = os.path.join(BUILD, "replay", prop)
